@@ -133,33 +133,26 @@ Definition merge_ok (a b merged : list kv) : bool :=
                       (match assoc k a with Some v => Some v | None => assoc k b end))
           (keys_of a ++ keys_of b ++ keys_of merged).
 
-(** ** Clause 7: the default encoding, read back.  For a set whose values are all strings the
-    encoded form determines the set: items are separated by unescaped ',', key and value by the
-    unescaped '=', and a backslash protects the byte after it. *)
-Fixpoint split_unesc (sep : N) (s cur : bytes) : list bytes :=
-  match s with
-  | [] => [rev cur]
-  | c :: r =>
-      if c =? 92 then
-        match r with
-        | d :: r' => split_unesc sep r' (d :: c :: cur)
-        | [] => [rev (c :: cur)]
-        end
-      else if c =? sep then rev cur :: split_unesc sep r []
-      else split_unesc sep r (c :: cur)
-  end.
+(** ** Clause 7: the default encoding agrees with the contents.
 
-Fixpoint unesc (s : bytes) : bytes :=
-  match s with
-  | [] => []
-  | c :: r => if c =? 92 then match r with d :: r' => d :: unesc r' | [] => [] end
-              else c :: unesc r
-  end.
+    What a value prints as (Value.Emit): decimal int64, "true"/"false", "[true false]", JSON arrays;
+    a string prints as itself.  float64 / []float64 are outside (strconv float formatting), and a
+    []string prints inside this specification only if its elements are JSON-plain: printable ASCII
+    other than the double quote, backslash, less-than, greater-than, ampersand (which encoding/json escapes) and '='. *)
+Definition json_plain (c : N) : bool :=
+  (32 <=? c) && (c <=? 126) &&
+  negb ((c =? 34) || (c =? 92) || (c =? 60) || (c =? 62) || (c =? 38) || (c =? 61)).
 
-Definition decode_item (it : bytes) : option (bytes * bytes) :=
-  match split_unesc 61 it [] with
-  | [k; v] => Some (unesc k, unesc v)
-  | _ => None
+Definition print_value (v : value) : option bytes :=
+  match v with
+  | VInvalid => Some (str "unknown")
+  | VBool b => Some (text_bool b)
+  | VInt n => Some (dec_i64 n)
+  | VStr s => Some s
+  | VBools l => Some (text_bools l)
+  | VInts l => Some (text_ints l)
+  | VStrs l => if forallb (forallb json_plain) l then Some (text_strs l) else None
+  | VFloat _ | VFloats _ => None
   end.
 
 Fixpoint all_some {A} (l : list (option A)) : option (list A) :=
@@ -169,22 +162,98 @@ Fixpoint all_some {A} (l : list (option A)) : option (list A) :=
   | None :: _ => None
   end.
 
-Definition decode_strings (enc : bytes) : option (list (bytes * bytes)) :=
-  match enc with
-  | [] => Some []
-  | _ => all_some (map decode_item (split_unesc 44 enc []))
+Definition printed_binding (x : kv) : option (bytes * bytes) :=
+  match print_value (snd x) with Some t => Some (fst x, t) | None => None end.
+(** The key -> printed value mapping of a set ([None] if some value is outside the specification). *)
+Definition printed (s : list kv) : option (list (bytes * bytes)) := all_some (map printed_binding s).
+
+(** Reading decimal text (the meaning of what FormatInt writes). *)
+Definition is_digit (c : N) : bool := (48 <=? c) && (c <=? 57).
+Fixpoint parse_dec_acc (s : bytes) (acc : N) : option N :=
+  match s with
+  | [] => Some acc
+  | c :: r => if is_digit c then parse_dec_acc r (10 * acc + (c - 48)) else None
+  end.
+Definition parse_dec (s : bytes) : option N := match s with [] => None | _ => parse_dec_acc s 0 end.
+Definition parse_i64 (s : bytes) : option Z :=
+  match s with
+  | 45 :: r => match parse_dec r with Some n => Some (- Z.of_N n)%Z | None => None end
+  | _ => match parse_dec s with Some n => Some (Z.of_N n) | None => None end
+  end.
+Definition i64_of_bits (n : N) : Z := if n <? TWO63 then Z.of_N n else (Z.of_N n - Z.of_N TWO64)%Z.
+Definition bits_of_i64 (z : Z) : N := Z.to_N (z mod Z.of_N TWO64).
+
+(** Reading an encoded set back.  A backslash protects the byte after it; an unprotected '=' ends a
+    key; the text up to the next '=' is the value followed by ',' and the next key, and a key holds no
+    unprotected ',' -- so the LAST unprotected ',' of that text is the separator (values such as
+    [1,2] keep their own commas). *)
+Inductive token := TChar (c : N) | TComma | TEq.
+
+Fixpoint tok (s : bytes) : list token :=
+  match s with
+  | [] => []
+  | c :: r =>
+      if c =? 92 then match r with d :: r' => TChar d :: tok r' | [] => [] end
+      else if c =? 44 then TComma :: tok r
+      else if c =? 61 then TEq :: tok r
+      else TChar c :: tok r
   end.
 
-Definition string_binding (x : kv) : option (bytes * bytes) :=
-  match snd x with VStr s => Some (fst x, s) | _ => None end.
+Definition untok1 (t : token) : N := match t with TChar c => c | TComma => 44 | TEq => 61 end.
+Definition untok (ts : list token) : bytes := map untok1 ts.
 
+Definition is_eq (t : token) : bool := match t with TEq => true | _ => false end.
+Definition is_comma (t : token) : bool := match t with TComma => true | _ => false end.
+
+Fixpoint split_eq (ts : list token) : list (list token) :=
+  match ts with
+  | [] => [[]]
+  | t :: r => if is_eq t then [] :: split_eq r
+              else match split_eq r with p :: ps => (t :: p) :: ps | [] => [[t]] end
+  end.
+
+Fixpoint cut_first_comma (ts : list token) : option (list token * list token) :=
+  match ts with
+  | [] => None
+  | t :: r => if is_comma t then Some ([], r)
+              else match cut_first_comma r with Some (a, b) => Some (t :: a, b) | None => None end
+  end.
+Definition cut_last_comma (ts : list token) : option (list token * list token) :=
+  match cut_first_comma (rev ts) with Some (rk, rb) => Some (rev rb, rev rk) | None => None end.
+
+Fixpoint dec_chunks (K : list token) (chunks : list (list token)) : option (list (list token * list token)) :=
+  match chunks with
+  | [] => None
+  | c :: more =>
+      match more with
+      | [] => Some [(K, c)]
+      | _ :: _ => match cut_last_comma c with
+                  | Some (B, K') => match dec_chunks K' more with Some r => Some ((K, B) :: r) | None => None end
+                  | None => None
+                  end
+      end
+  end.
+
+Definition decode_enc (enc : bytes) : option (list (bytes * bytes)) :=
+  match enc with
+  | [] => Some []
+  | _ => match split_eq (tok enc) with
+         | K :: chunks => match dec_chunks K chunks with
+                          | Some l => Some (map (fun p => (untok (fst p), untok (snd p))) l)
+                          | None => None
+                          end
+         | [] => None
+         end
+  end.
+
+(** The encoded form determines the printed mapping. *)
 Definition EncodingSpec (contents : list kv) (encoded : bytes) : Prop :=
-  forall l, all_some (map string_binding contents) = Some l -> decode_strings encoded = Some l.
+  forall l, printed contents = Some l -> decode_enc encoded = Some l.
 
 Definition strpair_eqb (a b : bytes * bytes) : bool := bytes_eqb (fst a) (fst b) && bytes_eqb (snd a) (snd b).
 
 Definition encoding_ok (contents : list kv) (encoded : bytes) : bool :=
-  match all_some (map string_binding contents) with
-  | Some l => option_eqb (list_eqb strpair_eqb) (decode_strings encoded) (Some l)
+  match printed contents with
+  | Some l => option_eqb (list_eqb strpair_eqb) (decode_enc encoded) (Some l)
   | None => true
   end.
